@@ -662,3 +662,95 @@ SPECS["C19"] = dict(
     assumptions=["two distinct devices are available (`/` and /dev/shm) and writable",
                  "single-threaded histories"],
 )
+
+SPECS["C08"] = dict(
+    title="StreamChunker tiles the input stream exactly, sentinels never hidden in data",
+    lean_modules=["Woodpile.Props.C08"],
+    theorems=[
+        "Woodpile.Props.C08.clamp_in_code",
+        "Woodpile.Props.C08.pumps_succeed_and_tile",
+        "Woodpile.Props.C08.tiles_of_run",
+        "Woodpile.Props.C08.eof_only_at_end",
+        "Woodpile.Props.C08.tiling",
+        "Woodpile.Props.C08.eof_reached",
+        "Woodpile.Props.C08.offsets_are_ends",
+        "Woodpile.Props.C08.sentinel_is_occurrence",
+        "Woodpile.Props.C08.data_nonempty_stuff_free",
+        "Woodpile.Props.C08.no_straddle",
+        "Woodpile.Props.C08.chunks_regroup_to_segments",
+        "Woodpile.Props.C08.attempts_irrelevant",
+        "Woodpile.Props.C08.arena_irrelevant",
+    ],
+    families=[dict(name="chunker", quick=3000, thorough=64000)],
+    technique="Lean 4 proof (invariant over pump calls on top of the read_n model; all streams, well-behaved read schedules, "
+              "block sizes and arena states) + model/implementation correspondence + reference splitter oracle",
+    design_ref="DESIGN.md section 5, C08 (finding F1, observation O1)",
+    level_text=("Kernel-checked theorems about a Lean model of StreamChunker::pump (Woodpile.Stream.pump: Read::chain of the "
+                "carry-over with the reader, read_n with unbounded attempts, the refill loop, the sentinel / split-position arms) "
+                "for every stream, every well-behaved read script (short reads of any size >= 1, Interrupted retries, EOF only at "
+                "the real end), every per-call block size including 0 and 1, every arena state and every clamp >= 2 (the code's "
+                "clamp is re-extracted and checked): every call returns a chunk, emitted ++ buf ++ unread = stream, offsets are "
+                "end positions, Eof only at the end and sticky, Eof reached, Data chunks non-empty and FE FD-free, no straddle, "
+                "every Sentinel is an occurrence and regrouping the chunks yields exactly the left-to-right FE FD split of the "
+                "stream. The old clamp (1) is shown to break it (F1 witness). The model is tied to /repo by running the real "
+                "pump and the compiled model on the same enumerated (all streams over {FE,FD,01,61} up to length 5/6 x block "
+                "sizes 0-4 x read sizes) and random cases and diffing chunks, offsets, request sizes and reader positions; a "
+                "shadow-state oracle with a reference splitter re-checks the property on the real chunks."),
+    level_note=("Trusted: Lean kernel + 3 standard axioms; the correspondence harness and its generators; std's Read::chain is "
+                "modelled (carry handed over by the first read). Hard I/O errors and premature zero-byte reads are exercised for "
+                "correspondence only (outside the property's quantifier, observation O1)."),
+    trusted_base=["std::io::Read::chain semantics (first reader until it returns 0, then the second)"],
+    assumptions=["64-bit usize; scripts shorter than usize::MAX answers; stream offsets below 2^64"],
+)
+
+SPECS["C06"] = dict(
+    title="StreamReader returns exactly the valid delimited records of any byte stream",
+    lean_modules=["Woodpile.Props.C06"],
+    theorems=[
+        "Woodpile.Props.C06.recordsAll_eq",
+        "Woodpile.Props.C06.recordsStd_eq",
+        "Woodpile.Props.C06.expectedSeq_spelled_out",
+        "Woodpile.Props.C06.splitIndep_of_spec",
+        "Woodpile.Props.C06.decodePieces_eq_spec",
+        "Woodpile.Props.C06.reader_keepgoing",
+        "Woodpile.Props.C06.reader_std_judge",
+        "Woodpile.Props.C06.reader_total",
+        "Woodpile.Props.C06.reader_schedule_independent",
+        "Woodpile.Props.C06.reader_generic_judge",
+        "Woodpile.Props.C06.std_judges_ok",
+        "Woodpile.Props.C06.last_sentinel_offset_correct",
+        "Woodpile.Props.C06.clamp_in_code",
+        "Woodpile.Props.C06.resync_segment",
+        "Woodpile.Props.C06.resync",
+    ],
+    families=[dict(name="reader", quick=3000, thorough=48000)],
+    technique="Lean 4 proof (per-chunk invariant of next_record_bytes over the C08 chunker model and the incremental decoder "
+              "model; all streams, well-behaved read schedules, block sizes, judge parameters) + model/implementation "
+              "correspondence + reference splitter/decoder oracle",
+    design_ref="DESIGN.md section 5, C06 (finding F1, observation O1)",
+    level_text=("Kernel-checked theorems about a Lean model of StreamReader::next_record_bytes (Woodpile.Stream.next: retry loop, "
+                "SkipSentinel/DecodeRecord/SkipRecord states, judge consultation after every chunk, decode_anchored through the "
+                "incremental decoder model Dec with production parameters, all five assertions as panics) on top of the C08 chunker "
+                "model, for every stream, every well-behaved read script, every io_block_size, arena state and clamp >= 2: with the "
+                "always-KeepGoing judge successive calls return exactly [(decoded, range) | non-empty FE FD-free segments of the "
+                "stream that Dec accepts] in order and then None forever; with chunk_judge(max, limit) the same filtered by decoded "
+                "size <= max and cut at the first segment start >= limit; never an error or a panic; results independent of "
+                "schedule/block size/arena; a delimiter-free valid piece between two delimiters is returned with its exact range "
+                "whatever bytes surround it (resync). The theorems assume split-independence of the incremental decoder "
+                "(SplitIndep prod), which follows from the C01/C07 refinement theorem Dec = Spec.decode (splitIndep_of_spec); under "
+                "it the per-segment decoder is Spec.decode (decodePieces_eq_spec). The model is tied to /repo by running the real "
+                "StreamReader and the compiled model on the same enumerated (all streams over {FE,FD,00,01,61} up to length 5 x "
+                "block sizes x read sizes; the crate's test vectors x limits; scripted judges) and random cases (valid records, torn "
+                "writes, corruption, garbage, delimiter runs, block-aligned delimiters, EINTR, hard errors) and diffing records, "
+                "ranges, last_sentinel_offset and reader positions; an independent Rust reference splitter + reference HCOBS decoder "
+                "oracle re-checks the property on the real results."),
+    level_note=("Trusted: Lean kernel + 3 standard axioms; the correspondence harness and its generators; the SplitIndep hypothesis "
+                "until the coordinator discharges it from the decoder refinement theorem. Arbitrary FnMut judges are modelled "
+                "(history-dependent), exercised by correspondence (scripted verdict lists) and covered by reader_generic_judge "
+                "(never panics, output before the first None is a sub-list of the KeepGoing output) under the side condition "
+                "JudgeOK; a judge answering SkipRecord on an empty range makes the real code panic "
+                "(assert_eq!(range.is_empty(), state == SkipSentinel)), reproduced by model and harness alike (reported as an "
+                "observation). last_sentinel_offset is a theorem for judges that never Stop (last_sentinel_offset_correct), and is compared by correspondence and checked by the oracle in all cases."),
+    trusted_base=["std::io::Read::chain semantics", "SplitIndep prod (discharged by the C01/C07 decoder refinement theorem)"],
+    assumptions=["64-bit usize; limit_offset None = u64::MAX is modelled as 'never'; streams shorter than 2^64 bytes"],
+)
